@@ -8,10 +8,14 @@ import hashlib, os, re, shutil, subprocess, sys, threading, time
 from concurrent.futures import ThreadPoolExecutor
 
 VERIF = os.path.dirname(os.path.dirname(os.path.abspath(__file__)))
-LEAN_SRC = os.path.join(VERIF, "lean")
-BUILD = os.path.join(VERIF, "build")
+# VERIF_WORK: private work area (own copy of the Lean sources incl. Generated, own .olean and output
+# directories) used when checking a scratch copy of the repository; the content-addressed cache is shared.
+WORK = os.environ.get("VERIF_WORK")
+LEAN_SRC = os.path.join(WORK or VERIF, "lean")
+BUILD = os.path.join(WORK or VERIF, "build")
 OLEAN = os.path.join(BUILD, "olean")
-CACHE = os.path.join(BUILD, "cache")
+CACHE = os.path.join(VERIF, "build", "cache")
+OUT = WORK or VERIF  # evidence/ and replay/ are written here
 _LEAN_VERSION = None
 LOCAL_ROOTS = ("PyModel", "Spec", "Contracts", "Generated", "Probe")
 
